@@ -820,14 +820,16 @@ class World:
             if step[3] % 3 == 2:
                 # the positions come as an int vector the program keeps (negative positions included): a bystander of the write
                 kv = S.Vector([idx[0] - n, idx[1]])
-                holder["entry"] = self.add(kv, "fresh")
+                holder["vector"] = kv
                 holder["values"] = [idx[0] - n, idx[1]]
                 return kv, 2, None
             return (idx if step[3] % 2 else tuple(idx)), 2, None
         si = self._vwrite("set_index", step, key_of)
-        if si is not None and holder.get("entry") is not None:
-            si.operands.append(holder["entry"])
-            si.info["key_vector"] = (holder["entry"].id, [idx_ for idx_ in holder["values"]])
+        if si is not None and holder.get("vector") is not None:
+            # (pooled after the write: adding it earlier could evict the table the target is a view of in mid-step)
+            si.info["key_vector"] = (holder["vector"], list(holder["values"]))
+            if len(self.entries) < self.MAX_POOL:
+                self.add(holder["vector"], "fresh")        # the program keeps it (never at the price of evicting the target)
         return si
 
     def _twrite(self, name, step, make):
